@@ -43,3 +43,23 @@ prop("C12",
      "existing content equals the new content; (W2) it is the only content writer of the generators.",
      "Nondeterminism inside third-party libraries; byte identity of outputs (needs execution).",
      COMMON_ASSUME)
+
+prop("C18",
+     "Structural clauses of import resolution in packaging.collectPackages / cmd.parsePackageNamespaces / cmd.flattenNamespaces: "
+     "(I1) the import-cycle test lies on every path to the already-collected shortcut; the chain flag is provably true (must-dataflow "
+     "over the CFG, loop back-edges included) at every recursive call and is cleared afterwards; the recursive call passes a strictly "
+     "smaller depth and a depth-limit test with error return dominates it; cycle, conflict and depth branches return non-nil errors; "
+     "(I2) a namespace is parsed once (memo lookup dominates the parse, memo store precedes recursion) and flattening is post-order "
+     "(dependencies first) with a visited test first; (E2/E5) no error on this path is swallowed or dead-stored.",
+     "Independence of the result from the order of the import list; git-fetched imports; the name lookup itself.",
+     COMMON_ASSUME)
+
+prop("C20",
+     "Structural clauses of watch-mode convergence: (T1) every function value scheduled with time.AfterFunc or started with `go` in "
+     "internal/cmd that reaches generateImpl runs under one sync.Mutex (Lock first, deferred Unlock) — generateImpl provably reaches "
+     "process-global mutators (os.Chdir via fetchAndCachePackages; the package-level koanf instance; the output files), so overlapping "
+     "regenerations could interleave and the older finish last; (T2) generateInWatchMode defers a literal that calls recover() directly "
+     "before generateImpl, so a panic in an intermediate state does not kill the watcher; (T3) every os.Chdir away is paired with a "
+     "deferred restore before any return, so an error does not leave the watcher in another directory.",
+     "Convergence itself (which regeneration runs last relative to the last edit), fsnotify behaviour, adequacy of the 5 ms debounce: schedules cannot be enumerated statically.",
+     COMMON_ASSUME)
